@@ -1,9 +1,13 @@
 import Driver.Util
+import Driver.RtCompat
 /-! Protocol handlers of the `decl.*` suites. -/
 open Lean
 namespace Driver.Decl
 
-def handle (op : String) (_j : Json) : Except String Json := do
+def handle (op : String) (j : Json) : Except String Json := do
+  -- BEGIN C07: `decl.compat.*` (two-environment ops, Driver/RtCompat.lean)
+  if op.startsWith "decl.compat." then return ← Driver.RtCompat.handle op j
+  -- END C07
   throw s!"unknown op {op}"
 
 end Driver.Decl
